@@ -1525,6 +1525,12 @@ class SyncObj(object):
                 self.__raftLog.add(*data[1])
 
             self.__raftLastApplied = data[1][1]
+            # What a snapshot holds is committed. Without this a node that starts from its dump file
+            # (commit index 1) lets an append_entries message that conflicts with the snapshot's last
+            # entry delete it: the log is left empty and every later tick raises IndexError.
+            if self.__raftCommitIndex < self.__raftLastApplied:
+                self.__raftCommitIndex = self.__raftLastApplied
+                self.__raftLog.setRaftCommitIndex(self.__raftCommitIndex)
 
             if self.__conf.dynamicMembershipChange:
                 self.__updateClusterConfiguration([node for node in data[3] if node != self.__selfNode])
